@@ -452,6 +452,9 @@ macro_rules! call_step_inst {
 call_step_inst!(io_call_step_n0, 0);
 call_step_inst!(io_call_step_n1, 1);
 call_step_inst!(io_call_step_n2, 2);
+//@ tier: thorough
+//@ mem: 30  timeout: 2400
+call_step_inst!(io_call_step_n3, 3);
 
 
 // =============================================================================================
